@@ -198,7 +198,8 @@ class FnTerms:
         if key in self._memo:
             return self._memo[key]
         t = self._term(expr, nid, env, depth)
-        self._memo[key] = t
+        if not self._active or not _has_rec(t):
+            self._memo[key] = t
         return t
 
     def _args(self, call, nid, env, depth):
@@ -570,6 +571,19 @@ def simplify(t):
         except Exception:
             pass
     return t
+
+
+def _has_rec(t):
+    stack = [t]
+    while stack:
+        x = stack.pop()
+        if isinstance(x, tuple):
+            if x and x[0] == "rec":
+                return True
+            stack.extend(y for y in x if isinstance(y, (tuple, frozenset)))
+        elif isinstance(x, frozenset):
+            stack.extend(y for y in x if isinstance(y, (tuple, frozenset)))
+    return False
 
 
 def walk(t):
